@@ -246,6 +246,24 @@ pub const CORE_FORMS: &[Form] = &[Form::Import, Form::Dynamic, Form::ImportType]
 pub const CORE_KINDS: &[Kind] = &[Kind::Ts, Kind::Missing, Kind::Js, Kind::Json, Kind::Redirect];
 pub const CORE_KINDS_QUICK: &[Kind] = &[Kind::Ts, Kind::Missing];
 
+/// Where the loader's redirects lead from `i`. All members of a redirect
+/// cycle (and everything leading into it) share one representative - the
+/// cycle's smallest index - so that the same-attribute proviso treats them as
+/// one target.
+pub fn final_of(kinds: &[Kind], redirect_to: &[usize], mut i: usize) -> usize {
+  let mut seen: Vec<usize> = vec![];
+  loop {
+    if kinds[i] != Kind::Redirect {
+      return i;
+    }
+    if let Some(pos) = seen.iter().position(|x| *x == i) {
+      return *seen[pos..].iter().min().unwrap();
+    }
+    seen.push(i);
+    i = redirect_to[i];
+  }
+}
+
 impl World {
   pub fn base(&self) -> &'static str {
     if self.remote { "https://x/" } else { "file:///w/" }
@@ -306,12 +324,7 @@ impl World {
     // (through loader redirects) to one entry share one attribute, and none
     // if that entry is a root
     {
-      let fin = |mut i: usize| {
-        for _ in 0..o.n_specs + 1 {
-          if kinds[i] == Kind::Redirect { i = redirect_to[i]; } else { break; }
-        }
-        i
-      };
+      let fin = |i: usize| final_of(&kinds, &redirect_to, i);
       for j in 0..o.n_specs {
         let f = fin(j);
         let leader = (0..o.n_specs).find(|k| fin(*k) == f).unwrap();
@@ -404,10 +417,7 @@ impl World {
     };
     // the header's target is an attribute-less import (proviso)
     let types_header = types_header.filter(|(_, j)| {
-      let mut f = *j;
-      for _ in 0..o.n_specs + 1 {
-        if kinds[f] == Kind::Redirect { f = redirect_to[f]; } else { break; }
-      }
+      let f = final_of(&kinds, &redirect_to, *j);
       attrs[*j] == Attr::None && attrs[f] == Attr::None
     });
     World {
@@ -639,15 +649,8 @@ impl World {
   }
 
   /// follows loader redirects (bounded)
-  pub fn final_target(&self, mut i: usize) -> usize {
-    for _ in 0..self.kinds.len() + 1 {
-      if self.kinds[i] == Kind::Redirect {
-        i = self.redirect_to[i];
-      } else {
-        break;
-      }
-    }
-    i
+  pub fn final_target(&self, i: usize) -> usize {
+    final_of(&self.kinds, &self.redirect_to, i)
   }
 
   pub fn roots(&self) -> Vec<deno_graph::ModuleSpecifier> {
